@@ -206,6 +206,11 @@ def cli_configs(rng: random.Random, thorough):
     cfgs.append({'name': 'multivalue-pairwise', 'data': data('f2'), 'args': dict(explode_multivalue_features='f2', target_ranking_only='False')})
     cfgs.append({'name': 'interaction2', 'data': data(), 'args': dict(interaction_order=2, target_ranking_only='True')})
     cfgs.append({'name': 'default-pairwise', 'data': data(), 'args': dict(target_ranking_only='False')})
+    # sub-sampled estimator (anything random inside the scorer would make scores depend on which worker took a pair)
+    cfgs.append({'name': 'subsampled-mi-pairwise', 'data': data(), 'args': dict(target_ranking_only='False', mi_stratified_sampling_ratio=0.5)})
+    # more candidate pairs than the per-batch cap (the capped selection must not depend on hash seeds / schedules)
+    cfgs.append({'name': 'capped-pairwise', 'data': data(), 'args': dict(target_ranking_only='False', combination_number_upper_bound=6)})
+    cfgs.append({'name': 'capped-interaction2', 'data': data(), 'args': dict(interaction_order=2, target_ranking_only='True', combination_number_upper_bound=4)})
     cfgs.append({'name': 'noise-controls', 'data': data(), 'args': dict(include_noise_baseline_features='True', target_ranking_only='True')})
     cfgs.append({'name': 'noise-controls-shimmed', 'data': cfgs[-1]['data'], 'args': dict(cfgs[-1]['args']), 'shim': True})
     for c in cfgs:
